@@ -24,10 +24,10 @@ def parseTOp (tok : String) : Option TOp :=
   | ["kd", k] => do pure (.kvDelete (← decS k))
   | ["kc", k, v, fl, c] => do pure (.kvCas (← decS k) ⟨← decS v, ← nat? fl⟩ (← nat? c))
   | ["kdc", k, c] => do pure (.kvDeleteCas (← decS k) (← nat? c))
-  | ["ns", n, a] => do pure (.nodeSet (← decS n) (← decS a))
-  | ["nd", n] => do pure (.nodeDelete (← decS n))
-  | ["nc", n, a, c] => do pure (.nodeCas (← decS n) (← decS a) (← nat? c))
-  | ["ndc", n, c] => do pure (.nodeDeleteCas (← decS n) (← nat? c))
+  | ["ns", n, a, id] => do pure (.nodeSet (← decS n) ⟨← decS id, ← decS a⟩)
+  | ["nd", n, _id] => do pure (.nodeDelete (← decS n))            -- the delete verbs ignore the ID
+  | ["nc", n, a, id, c] => do pure (.nodeCas (← decS n) ⟨← decS id, ← decS a⟩ (← nat? c))
+  | ["ndc", n, _id, c] => do pure (.nodeDeleteCas (← decS n) (← nat? c))
   | ["ss", n, id, p] => do pure (.svcSet (← decS n) (← decS id) (← nat? p))
   | ["sd", n, id] => do pure (.svcDelete (← decS n) (← decS id))
   | ["sc", n, id, p, c] => do pure (.svcCas (← decS n) (← decS id) (← nat? p) (← nat? c))
@@ -77,6 +77,7 @@ def parseCmd : List String → Option (Nat × Cmd)
 def errName : Err → String
   | .casMismatch => "cas-mismatch" | .stale => "stale"
   | .missingNode => "missing-node" | .missingService => "missing-service"
+  | .nodeNameConflict => "node-name-conflict"
   | .rootsActive => "roots-active" | .missingRootId => "missing-root-id"
   | .fgNoStatus => "fg-no-status" | .fgNoPolicy => "fg-no-policy"
   | .tokNoSecret => "tok-no-secret" | .tokNoAccessor => "tok-no-accessor"
@@ -106,7 +107,7 @@ def dumpStr (s : Cas.State) : String :=
   unwords [
     "kv=" ++ sorted (s.kvs.map fun (k, e) => s!"{encS k};{encS e.val.value};{e.val.flags};{e.create};{e.modify}"),
     "tomb=" ++ sorted (s.tombs.map fun (k, i) => s!"{encS k};{i}"),
-    "node=" ++ sorted (s.nodes.map fun (k, e) => s!"{encS k};{encS e.val};{e.create};{e.modify}"),
+    "node=" ++ sorted (s.nodes.map fun (k, e) => s!"{encS k};{encS e.val.id};{encS e.val.addr};{e.create};{e.modify}"),
     "svc=" ++ sorted (s.svcs.map fun (k, e) => s!"{encS k.1};{encS k.2};{e.val};{e.create};{e.modify}"),
     "chk=" ++ sorted (s.chks.map fun (k, e) =>
         s!"{encS k.1};{encS k.2};{encS e.val.svcId};{encS e.val.output};{e.create};{e.modify}"),
